@@ -149,6 +149,43 @@ def run(ctx: Ctx) -> None:
             if common:
                 ctx.check(it.priority > t.priority or _disjoint_second(t, it), "G3", f"{t.name} vs ignored {it.name}", "mappyfile/mapfile.lark", f"both may start with {chr(common[0])!r}; {it.name} has priority {it.priority} > {t.priority}", f"{t.name} (priority {t.priority}) can start with {chr(common[0])!r} like the ignored {it.name} (priority {it.priority}): a comment could be read as a {t.name} token")
 
+    # ---- G9 --------------------------------------------------------------------------------------
+    ctx.rule("G9", "in every parser state, every text /*w*/ (w over a small alphabet up to length 3 plus longer samples, w not closing the comment early) and every #w up to the line end is lexed as one ignored comment token, whatever w begins or ends with", 2)
+    import itertools
+
+    ign_names = set(G.ignore)
+    accept_sets = {}
+    for st, acc in G.accepts.items():
+        accept_sets.setdefault(tuple(acc), st)
+    alpha = ["a", " ", "*", "/", "\n", "#", '"', "1"]
+    bodies = [""] + ["".join(c) for n_ in (1, 2, 3) for c in itertools.product(alpha, repeat=n_)]
+    bodies += ["note", "note ", " note", "TODO: check this", "* banner *", "\n multi\n line\n", "END", "'quoted'", "[x] = 1", "a /* nested"]
+    nc = nh = 0
+    bad_c: dict = {}
+    bad_h: dict = {}
+    for w in bodies:
+        txt = "/*" + w + "*/"
+        if txt.find("*/", 2) == len(txt) - 2:
+            nc += 1
+            for acc, st in accept_sets.items():
+                k_ = G.lex_kind(txt, list(acc))
+                if k_ not in ign_names:
+                    bad_c.setdefault(txt, (st, k_))
+        if "\n" not in w:
+            nh += 1
+            txt = "#" + w
+            for acc, st in accept_sets.items():
+                k_ = G.lex_kind(txt, list(acc))
+                if k_ not in ign_names:
+                    bad_h.setdefault(txt, (st, k_))
+    ctx.units["comment_texts_lexed"] = nc + nh
+    ctx.units["lexer_states"] = len(accept_sets)
+    for kind, n_, bad in (("/* */ comments", nc, bad_c), ("# comments", nh, bad_h)):
+        ex = sorted(bad.items(), key=lambda kv: (len(kv[0]), kv[0]))[:4]
+        ctx.check(not bad, "G9", kind, "mappyfile/mapfile.lark", f"{n_} texts x {len(accept_sets)} lexer states", f"{len(bad)} of {n_} comment texts are not skipped as one comment, e.g. " + "; ".join(f"{t!r} in state {st} is read as {k_ or 'several tokens / an error'}" for t, (st, k_) in ex))
+    if nc < 400 or nh < 400:
+        raise AnalysisError(f"comment family shrank: {nc} / {nh}")
+
     # ---- Q1 --------------------------------------------------------------------------------------
     ctx.rule("Q1", "single- and double-quoted terminals are mirror images, occur only as sibling alternatives of one rule, and remove_quotes strips either pair alike", 5)
     for a, b in (("DOUBLE_QUOTED_STRING", "SINGLE_QUOTED_STRING"), ("DOUBLE_QUOTED_HEXCOLOR", "SINGLE_QUOTED_HEXCOLOR")):
